@@ -142,6 +142,19 @@ def run_case(ctx, name, params):
         ctx.count("warmup_batches")
         del p.failed[:]
         del p.calls[:]
+    if r.random() < 0.3:
+        # the search region is re-declared after the algorithm (and its evaluator/job) was built: either the bounds are edited
+        # in place or the problem gets a new parameter list; replacements are sampled "inside the bounds" -- the declared ones
+        nb = gen.boxes(r, n, r.choice(["unit", "mixed", "neg", "asym", "offset"]))
+        if r.random() < 0.5:
+            p.parameters = [{"name": "x%d" % i, "bounds": list(b)} for i, b in enumerate(nb)]
+            ctx.count("batches_after_parameter_list_reassigned")
+        else:
+            for q_, b in zip(p.parameters, nb):
+                q_["bounds"][0], q_["bounds"][1] = b[0], b[1]
+            ctx.count("batches_after_bounds_edited_in_place")
+        bxs = nb
+        mids[:] = [lb + (ub - lb) / 2 for lb, ub in bxs]
     batch = []
     for d in range(len(scripts)):
         ind = Individual([r.uniform(lb, ub) for lb, ub in bxs])
